@@ -230,8 +230,7 @@ def rule_a3(ctx):
         region = body.reachable([0], succ=succ)
         if len(region) == len(body.reachable([0])) or len(region) < 4:
             raise AnchorMissing("A3: cannot isolate the %s arm" % label)
-        via = {b for b in region if body.term(b)["k"] == "call" and mir.last_seg(mir.callee(body.term(b)) or "") in circuits}
-        via = set(via)
+        via = ctx.blocks_calling(body, set(circuits), region=set(region))
         for lp in body.loops():
             if lp["body"] & via:
                 via.add(lp["header"])
